@@ -276,6 +276,26 @@ def load_groups():
 # ----------------------------------------------------------------------------------------
 # extraction
 # ----------------------------------------------------------------------------------------
+_SHAPES = None
+
+
+def known_closures(group_name, unit_name):
+    """closure body hashes recorded for this unit in specs/shapes.json ([] for a unit recorded without closures;
+    None when there is no record at all, e.g. while tools/mkshapes.py itself runs)"""
+    global _SHAPES
+    if os.environ.get("VERIF_NO_SHAPES"):
+        return None
+    if _SHAPES is None:
+        sp = os.path.join(VERIF, "specs", "shapes.json")
+        _SHAPES = json.load(open(sp)) if os.path.exists(sp) else {}
+    if not _SHAPES:
+        return None
+    rec = _SHAPES.get(f"{group_name}:{unit_name}")
+    if rec is None:
+        return []
+    return rec.get("closure_hashes")
+
+
 def run_vx(group, vac_names=None):
     units = []
     for u in group["units"]:
@@ -285,7 +305,8 @@ def run_vx(group, vac_names=None):
                "self_ty": u.get("self_ty"), "trait": u.get("trait"), "method": u.get("method"),
                "fns": u["fns"], "derive_keep": u.get("derive_keep"), "only_methods": u.get("only_methods"),
                "pre_attrs": u.get("pre_attrs", []), "drop_fields": u.get("drop_fields", []),
-               "hoist": bool(u.get("hoist")), "vac": bool(vac_names and u["name"] in vac_names)}
+               "hoist": bool(u.get("hoist")), "vac": bool(vac_names and u["name"] in vac_names),
+               "known_closures": known_closures(group["name"], u["name"])}
         units.append(req)
     job = {"repo": REPO, "units": units, "renames": group["renames"], "macro_map": group["macro_map"],
            "expr_map": group["exprmap"], "type_map": group.get("typemap", [])}
